@@ -35,9 +35,12 @@ func init() {
 		Rule: "seeded cases = (transport-wide default writers) x (per-operation writers or none or PassThroughAuth) x (Authorization header preset by the parameter writer: Bearer / Basic / foreign scheme / none) x " +
 			"(access_token in query) x (access_token in urlencoded or multipart form body) x server options (realm mode, context-aware or plain constructors, *http.Request or *ScopedAuthRequest argument, " +
 			"required scopes, server-side spelling of key name and location, callback outcome principal / error / both). Writers are client.BasicAuth / APIKeyAuth(header|query) / BearerToken, optionally wrapped in client.Compose. " +
-			"The request is built by client.Runtime.CreateHttpRequest, serialised with Request.Write and re-parsed with http.ReadRequest (thorough: additionally sent by Runtime.Submit to a loopback httptest.Server); " +
+			"The request is built by client.Runtime.CreateHttpRequest, serialised with Request.Write and re-parsed with http.ReadRequest; a smaller stream of cases (quick: 150 per worker, thorough: 10000 per worker) is sent by Runtime.Submit to a loopback httptest.Server instead, " +
+			"where every request the server receives is judged, a second request for one Submit is a violation, and a Submit that fails (or never reaches the handler) is charged to the case when a plain control request is delivered right afterwards and the case fails the same way again; " +
 			"a fresh copy of the received request is handed to security.BasicAuth*/BearerAuth*/APIKeyAuth* (one probe per kind and per key name and location mentioned in the case) with recording callbacks. " +
 			"User names: bytes without ':'; passwords, query and form tokens: arbitrary bytes; header tokens: visible ASCII, 0x80-0xff, inner SP/HTAB. All tokens of a case are pairwise distinct. " +
+			"One case in forty lengthens one or two of its credentials (any slot: user, password, header/query/form token, API key, preset header) to 100 B, 4 KiB or 64 KiB, with [A-Za-z0-9] filler or filler over the slot's whole alphabet. " +
+			"The required scopes (incl. unsorted, repeated, mixed-case and padded elements) are handed to the authenticator as a copy made per call and compared with the case's own copy. " +
 			"non-trivial = a transmitted credential holds >= 1 byte outside [A-Za-z0-9], or >= 2 credentials/placements are present at once; distinct by the whole case",
 		Assumptions: []string{
 			"header-carried tokens have no leading/trailing whitespace and no control bytes (HTTP trims the former, Go's transport and server refuse the latter); empty tokens and empty API keys are not generated",
@@ -90,6 +93,28 @@ type Case struct {
 	InCase    int      `json:"in_case,omitempty"`  // server spelling of the location: 0 lower 1 Title 2 UPPER
 	Outcome   string   `json:"outcome"`            // ok | err | both
 	TCP       bool     `json:"tcp,omitempty"`
+
+	// Stretch lengthens credentials of the case (recipes, so that recorded cases stay small); see expand.
+	Stretch []Stretch `json:"stretch,omitempty"`
+
+	orig *Case // set on the expanded working copy: the recorded (compact) form of the case
+}
+
+// Stretch is the recipe of one long credential: the value of the slot becomes the slot's own short value
+// followed by deterministic filler (from Seed) up to Len bytes in total. Even seeds fill with [A-Za-z0-9]
+// only (nothing but the length is unusual), odd seeds with the whole alphabet the slot may carry.
+type Stretch struct {
+	Slot string `json:"slot"` // op.<i>.user|pass|token | default.<i>.user|pass|token | preset.user|pass|token | query | form
+	Len  int    `json:"len"`
+	Seed int64  `json:"seed"`
+}
+
+// rep is the form of the case that is recorded with a violation.
+func rep(c *Case) *Case {
+	if c.orig != nil {
+		return c.orig
+	}
+	return c
 }
 
 // ---------------------------------------------------------------------------------------------
@@ -419,7 +444,8 @@ func runProbe(c *Case, p probe, req *http.Request) (o observation) {
 	}
 	var param interface{} = req
 	if p.kind == "bearer" || c.Scoped {
-		param = &security.ScopedAuthRequest{Request: req, RequiredScopes: c.Scopes}
+		// the library gets its own copy of the required scopes: the oracle's reference (c.Scopes) is never in its hands
+		param = &security.ScopedAuthRequest{Request: req, RequiredScopes: cloneScopes(c.Scopes)}
 	}
 	// an authenticator is built once and serves many requests: an earlier request with OTHER credentials
 	// (of every kind and placement) goes through the same instance first; nothing of it may show up below
@@ -480,10 +506,14 @@ var (
 	srv     *httptest.Server
 	srvMu   sync.Mutex
 	srvCase *Case
-	srvObs  []observation
-	srvErr  error
-	srvHits int
+	srvSeen []hit // one entry per request the handler received for srvCase
 )
+
+// hit is what the loopback server saw of one received request.
+type hit struct {
+	obs []observation
+	err error
+}
 
 func server() *httptest.Server {
 	srvOnce.Do(func() {
@@ -491,7 +521,6 @@ func server() *httptest.Server {
 			body, rerr := io.ReadAll(r.Body)
 			srvMu.Lock()
 			c := srvCase
-			srvHits++
 			srvMu.Unlock()
 			var obs []observation
 			err := rerr
@@ -504,7 +533,9 @@ func server() *httptest.Server {
 				})
 			}
 			srvMu.Lock()
-			srvObs, srvErr = obs, err
+			if c != nil && c == srvCase {
+				srvSeen = append(srvSeen, hit{obs, err})
+			}
 			srvMu.Unlock()
 			w.Header().Set("Content-Type", runtime.JSONMime)
 			w.WriteHeader(http.StatusOK)
@@ -550,31 +581,80 @@ func channel(c *Case) string {
 	return "wire"
 }
 
+// tcpResult is the outcome of one Runtime.Submit against the loopback server.
+type tcpResult struct {
+	pv   interface{}
+	st   string
+	err  error
+	hits []hit
+}
+
+func submitTCP(c *Case) (res tcpResult) {
+	rt, op := buildOperation(c, strings.TrimPrefix(server().URL, "http://"))
+	srvMu.Lock()
+	srvCase, srvSeen = c, nil
+	srvMu.Unlock()
+	res.pv, res.st = mon.Catch(func() { _, res.err = rt.Submit(op) })
+	srvMu.Lock()
+	res.hits = srvSeen
+	srvCase, srvSeen = nil, nil
+	srvMu.Unlock()
+	return res
+}
+
+// failure names how a Submit fell short of "one request, received and readable" ("" = it did not).
+func (res tcpResult) failure() string {
+	switch {
+	case res.pv != nil:
+		return "client-panic"
+	case res.err != nil:
+		return "submit-error"
+	case len(res.hits) == 0:
+		return "request-refused-before-handler"
+	}
+	for _, h := range res.hits {
+		if h.err != nil || h.obs == nil {
+			return "server-read-error"
+		}
+	}
+	return ""
+}
+
+// controlCase is a plain request that any working loopback path carries: if it goes through while a
+// case keeps failing, the failure belongs to the case (the credential was made unsendable), not to the host.
+func controlCase() *Case {
+	return &Case{NoWarm: true, Method: "GET", HasOpAuth: true, OpAuth: []Cred{{Kind: "bearer", Token: "control0token"}},
+		RealmMode: "ctor", SchemeNm: "oauth2", Outcome: "ok", TCP: true}
+}
+
 func runCase(m *mon.M, c *Case) {
 	m.Eval(1)
+	x, xerr := c.expand()
+	if xerr != nil {
+		m.Violate("bad-replay-case", xerr.Error(), nil)
+		return
+	}
+	c = x // the working copy; rep(c) is the recorded form
 	e := expect(c)
 
 	var obs []observation
-	host := "api.example.test:8080"
-	if c.TCP {
-		host = strings.TrimPrefix(server().URL, "http://")
-	}
-	rt, op := buildOperation(c, host)
+	var all [][]observation
 	if !c.TCP {
+		rt, op := buildOperation(c, "api.example.test:8080")
 		var req *http.Request
 		var err error
 		pv, st := mon.Catch(func() { req, err = rt.CreateHttpRequest(op) })
 		if pv != nil {
-			m.Violate("client-panic", fmt.Sprintf("CreateHttpRequest panicked: %v\n%s", pv, st), c)
+			m.Violate("client-panic", fmt.Sprintf("CreateHttpRequest panicked: %v\n%s", pv, st), rep(c))
 			return
 		}
 		if err != nil {
-			m.Violate("client-build-error", "CreateHttpRequest failed: "+err.Error(), c)
+			m.Violate("client-build-error", "CreateHttpRequest failed: "+err.Error(), rep(c))
 			return
 		}
 		var buf bytes.Buffer
 		if err := req.Write(&buf); err != nil {
-			m.Violate("request-not-serialisable", "Request.Write failed: "+err.Error(), c)
+			m.Violate("request-not-serialisable", "Request.Write failed: "+err.Error(), rep(c))
 			return
 		}
 		wire := buf.Bytes()
@@ -582,40 +662,63 @@ func runCase(m *mon.M, c *Case) {
 			return http.ReadRequest(bufio.NewReader(bytes.NewReader(wire)))
 		})
 		if err != nil {
-			m.Violate("request-not-parsable", fmt.Sprintf("http.ReadRequest failed: %v on %q", err, clipBytes(wire)), c)
+			m.Violate("request-not-parsable", fmt.Sprintf("http.ReadRequest failed: %v on %q", err, clipBytes(wire)), rep(c))
 			return
 		}
 	} else {
-		srvMu.Lock()
-		srvCase, srvObs, srvErr = c, nil, nil
-		before := srvHits
-		srvMu.Unlock()
-		var err error
-		pv, st := mon.Catch(func() { _, err = rt.Submit(op) })
-		srvMu.Lock()
-		obs = srvObs
-		serr := srvErr
-		hits := srvHits - before
-		srvCase = nil
-		srvMu.Unlock()
-		if pv != nil {
-			m.Violate("client-panic", fmt.Sprintf("Submit panicked: %v\n%s", pv, st), c)
+		res := submitTCP(c)
+		if res.pv != nil {
+			m.Violate("client-panic", fmt.Sprintf("Submit panicked: %v\n%s", res.pv, res.st), rep(c))
 			return
 		}
-		if err != nil {
-			if strings.Contains(err.Error(), "invalid header") || strings.Contains(err.Error(), "invalid URL") {
-				m.Violate("credential-not-transmittable", "Submit failed: "+err.Error(), c)
-			} else {
-				m.Class("tcp/io-error(not judged)")
+		if res.err != nil && (strings.Contains(res.err.Error(), "invalid header") || strings.Contains(res.err.Error(), "invalid URL")) {
+			m.Violate("credential-not-transmittable", "Submit failed: "+res.err.Error(), rep(c))
+			return
+		}
+		if kind := res.failure(); kind != "" {
+			// Every generated credential is one the statement covers (header-safe where it travels in a header),
+			// so the request is owed to arrive. Three-valued: the failure is charged to the case only when a plain
+			// control request goes through right afterwards AND the case fails the same way again.
+			legacy := "tcp/io-error(not judged)"
+			if res.err == nil {
+				legacy = "tcp/server-saw-nothing(not judged)"
 			}
+			if ctl := submitTCP(controlCase()); ctl.failure() != "" || len(ctl.hits) != 1 {
+				m.Class(legacy)
+				m.Note("tcp_environment_failures", 1)
+				return
+			}
+			again := submitTCP(c)
+			if again.failure() != kind {
+				m.Class(legacy)
+				m.Note("tcp_failures_not_reproduced", 1)
+				return
+			}
+			var herr error
+			for _, h := range again.hits {
+				if h.err != nil {
+					herr = h.err
+				}
+			}
+			m.Violate("tcp/"+kind+"/"+caseFeature(c), fmt.Sprintf("Submit to the loopback server twice ended in %s (client error: %v; server-side read error: %v; requests received: %d) "+
+				"while a plain control request in between was delivered", kind, again.err, herr, len(again.hits)), rep(c))
 			return
 		}
-		if hits != 1 || serr != nil || obs == nil {
-			m.Class("tcp/server-saw-nothing(not judged)")
-			return
+		if len(res.hits) > 1 {
+			m.Violate("tcp/request-sent-more-than-once", fmt.Sprintf("one Submit made the server receive %d requests; each of them is judged", len(res.hits)), rep(c))
 		}
+		for _, h := range res.hits {
+			all = append(all, h.obs)
+		}
+		obs = all[0]
+	}
+	if !c.TCP {
+		all = [][]observation{obs}
 	}
 	m.Class("channel/" + channel(c))
+	for _, st := range rep(c).Stretch {
+		m.Class("long-credential/" + channel(c) + "/" + sizeClass(st.Len))
+	}
 	m.Note("authenticator_calls", int64(len(obs)))
 
 	// non-triviality
@@ -640,17 +743,19 @@ func runCase(m *mon.M, c *Case) {
 		nt = true
 	}
 	if nt {
-		b, _ := json.Marshal(c)
+		b, _ := json.Marshal(rep(c))
 		m.NT(string(b))
 	}
 	m.SetAdd("bearer-placement-subsets", strings.Join(e.placements, "+"))
 	m.SetAdd("auth-matrix", fmt.Sprintf("default=%v op=%v preset=%v", len(c.Default) > 0, c.HasOpAuth, c.Preset != nil))
 
-	for i := range obs {
-		judge(m, c, e, &obs[i])
+	for _, one := range all { // every request the server received carries the credentials (one, save for a flagged duplicate)
+		for i := range one {
+			judge(m, c, e, &one[i])
+		}
 	}
 	if m.WantSample() {
-		m.Sample(map[string]interface{}{"case": c, "expected_bearer_source": e.bearerSrc, "expected_basic": e.basic, "placements": e.placements})
+		m.Sample(map[string]interface{}{"case": rep(c), "expected_bearer_source": e.bearerSrc, "expected_basic": e.basic, "placements": e.placements})
 	}
 }
 
@@ -659,6 +764,14 @@ func clipBytes(b []byte) string {
 		b = b[:600]
 	}
 	return string(b)
+}
+
+// cloneScopes copies a scope list, keeping nil and empty apart.
+func cloneScopes(s []string) []string {
+	if s == nil {
+		return nil
+	}
+	return append([]string{}, s...)
 }
 
 func sameScopes(a, b []string) bool {
@@ -719,7 +832,7 @@ func judge(m *mon.M, c *Case, e *expectation, o *observation) {
 	lab := o.p.label()
 	ch := channel(c)
 	if o.panicked != "" {
-		m.Violate(lab+"/authenticator-panic", "Authenticate panicked: "+o.panicked, c)
+		m.Violate(lab+"/authenticator-panic", "Authenticate panicked: "+o.panicked, rep(c))
 		return
 	}
 	// what is owed to this probe
@@ -744,12 +857,15 @@ func judge(m *mon.M, c *Case, e *expectation, o *observation) {
 	if o.p.kind == "basic" && strings.Contains(wb, ":") && feat != "non-ascii" && feat != "control" {
 		feat = "colon-in-password"
 	}
+	if sc := sizeClass(len(wa) + len(wb)); sc != "" {
+		feat += "+" + sc
+	}
 	describe := func() string {
 		return fmt.Sprintf("[%s] probe %s name=%q: applies=%v calls=%d principal=%v err=%v; owed=%v (%s)", ch, lab, o.p.name, o.applies, len(o.calls), o.principal, o.err, owed, src)
 	}
 
 	if len(o.calls) > 1 {
-		m.Violate(lab+"/callback-called-twice", describe(), c)
+		m.Violate(lab+"/callback-called-twice", describe(), rep(c))
 		return
 	}
 	called := len(o.calls) == 1
@@ -765,13 +881,13 @@ func judge(m *mon.M, c *Case, e *expectation, o *observation) {
 			}
 			got := ""
 			if called {
-				got = fmt.Sprintf(" callback got (%q,%q)", o.calls[0].a, o.calls[0].b)
+				got = fmt.Sprintf(" callback got (%s,%s)", qclip(o.calls[0].a), qclip(o.calls[0].b))
 			}
-			m.Violate(lab+"/applied-without-credential/"+why, describe()+got, c)
+			m.Violate(lab+"/applied-without-credential/"+why, describe()+got, rep(c))
 			return
 		}
 		if o.principal != nil {
-			m.Violate(lab+"/principal-invented", describe(), c)
+			m.Violate(lab+"/principal-invented", describe(), rep(c))
 		}
 		if o.p.kind == "basic" {
 			judgeRealm(m, c, o, "no-credential")
@@ -782,9 +898,9 @@ func judge(m *mon.M, c *Case, e *expectation, o *observation) {
 	m.Class("verdict/" + lab + "/applicable/" + src)
 	if !called || !o.applies {
 		if src == "default" {
-			m.Violate(lab+"/default-auth-not-applied", describe(), c)
+			m.Violate(lab+"/default-auth-not-applied", describe(), rep(c))
 		} else {
-			m.Violate(lab+"/not-applied-although-sent/"+src+"/"+feat, describe()+fmt.Sprintf(" expected (%q,%q)", wa, wb), c)
+			m.Violate(lab+"/not-applied-although-sent/"+src+"/"+feat, describe()+fmt.Sprintf(" expected (%s,%s)", qclip(wa), qclip(wb)), rep(c))
 		}
 		return
 	}
@@ -799,25 +915,25 @@ func judge(m *mon.M, c *Case, e *expectation, o *observation) {
 				sig = "bearer/precedence/" + s + "-beats-" + strings.SplitN(src, ":", 2)[0]
 			}
 		}
-		m.Violate(sig, describe()+fmt.Sprintf(" callback got (%q,%q), expected (%q,%q)", ga, gb, wa, wb), c)
+		m.Violate(sig, describe()+fmt.Sprintf(" callback got (%s,%s), expected (%s,%s)%s", qclip(ga), qclip(gb), qclip(wa), qclip(wb), diffAt(ga+"\x00"+gb, wa+"\x00"+wb)), rep(c))
 	}
 	if o.p.kind == "bearer" && !sameScopes(o.calls[0].scopes, c.Scopes) {
-		m.Violate("bearer/scopes-differ", describe()+fmt.Sprintf(" callback got scopes %q, required %q", o.calls[0].scopes, c.Scopes), c)
+		m.Violate("bearer/scopes-differ", describe()+fmt.Sprintf(" callback got scopes %q, required %q", o.calls[0].scopes, c.Scopes), rep(c))
 	}
 	if o.principal != o.cbPrincipal {
-		m.Violate(lab+"/principal-substituted/outcome-"+c.Outcome, describe()+fmt.Sprintf(" callback returned %v", o.cbPrincipal), c)
+		m.Violate(lab+"/principal-substituted/outcome-"+c.Outcome, describe()+fmt.Sprintf(" callback returned %v", o.cbPrincipal), rep(c))
 	}
 	if o.err != o.cbErr {
-		m.Violate(lab+"/error-substituted/outcome-"+c.Outcome, describe()+fmt.Sprintf(" callback returned error %v", o.cbErr), c)
+		m.Violate(lab+"/error-substituted/outcome-"+c.Outcome, describe()+fmt.Sprintf(" callback returned error %v", o.cbErr), rep(c))
 	}
 	if c.Ctx && o.ctxMarker == nil {
-		m.Violate(lab+"/callback-context-dropped/outcome-"+c.Outcome, describe()+" the context returned by the context-aware callback is not the request's context afterwards", c)
+		m.Violate(lab+"/callback-context-dropped/outcome-"+c.Outcome, describe()+" the context returned by the context-aware callback is not the request's context afterwards", rep(c))
 	}
 	if o.p.kind == "basic" && o.cbErr != nil {
 		judgeRealm(m, c, o, "refused")
 	}
 	if o.p.kind == "bearer" && o.schemeName != c.SchemeNm {
-		m.Violate("bearer/scheme-name-marker-differs", describe()+fmt.Sprintf(" OAuth2SchemeName=%q, authenticator name %q", o.schemeName, c.SchemeNm), c)
+		m.Violate("bearer/scheme-name-marker-differs", describe()+fmt.Sprintf(" OAuth2SchemeName=%q, authenticator name %q", o.schemeName, c.SchemeNm), rep(c))
 	}
 }
 
@@ -828,7 +944,7 @@ func judgeRealm(m *mon.M, c *Case, o *observation, when string) {
 	}
 	if o.failedRealm != want {
 		m.Violate("basic/failed-realm-marker-differs/"+when+"/realm-"+c.RealmMode,
-			fmt.Sprintf("[%s] FailedBasicAuth=%q, expected realm %q (mode %s, ctx=%v)", channel(c), o.failedRealm, want, c.RealmMode, c.Ctx), c)
+			fmt.Sprintf("[%s] FailedBasicAuth=%q, expected realm %q (mode %s, ctx=%v)", channel(c), o.failedRealm, want, c.RealmMode, c.Ctx), rep(c))
 	}
 }
 
@@ -845,7 +961,7 @@ var (
 	foreignHdr = []string{"Digest username=\"x\", response=\"y\"", "Token abc", "Negotiate YIIZ=", "AWS4-HMAC-SHA256 Credential=x", "Bearer", "Basic", "BearerX tok", "Basically x", "bogus", "Bea"}
 	anyMethods = []string{"GET", "POST", "PUT", "PATCH", "DELETE", "HEAD", "OPTIONS"}
 	bodyMeths  = []string{"POST", "PUT", "PATCH"}
-	scopeSets  = [][]string{nil, {}, {"read"}, {"read", "write:all"}, {"a b", ""}, {"write", "read", "write"}}
+	scopeSets  = [][]string{nil, {}, {"read"}, {"read", "write:all"}, {"a b", ""}, {"write", "read", "write"}, {"Zeta", "alpha", "Beta", "alpha"}, {"Read:All", " padded ", "b", "a"}}
 	realms     = []string{"API", "My Realm", "r\"q", "\xc3\xa9", "x"}
 	schemeNms  = []string{"oauth2", "petstore_auth", "", "a b"}
 )
@@ -1009,11 +1125,18 @@ func genCase(r *rand.Rand) *Case {
 	}
 	c.Ctx = r.Intn(2) == 0
 	c.Scoped = r.Intn(2) == 0
-	c.Scopes = scopeSets[r.Intn(len(scopeSets))]
+	c.Scopes = cloneScopes(scopeSets[r.Intn(len(scopeSets))]) // the case's own copy, never the shared set
 	c.SchemeNm = schemeNms[r.Intn(len(schemeNms))]
 	c.KeyCase = r.Intn(4)
 	c.InCase = r.Intn(3)
 	c.Outcome = []string{"ok", "ok", "err", "both"}[r.Intn(4)]
+	// long credentials: one (sometimes two) of the case's credentials of 100 B / 4 KiB / 64 KiB
+	if r.Intn(40) == 0 {
+		addStretch(r, c)
+		if r.Intn(4) == 0 {
+			addStretch(r, c)
+		}
+	}
 	return c
 }
 
@@ -1034,15 +1157,14 @@ func run(m *mon.M) {
 		m.Begin(c)
 		runCase(m, c)
 	}
-	if !m.Quick() {
-		rt := m.Rand("tcp")
-		nt := 10000
-		for i := 0; i < nt; i++ {
-			c := genCase(rt)
-			c.TCP = true
-			m.Begin(c)
-			runCase(m, c)
-		}
+	// the same cases through Runtime.Submit and a real loopback server (the transport validates what it sends)
+	rt := m.Rand("tcp")
+	nt := m.N(150, 10000)
+	for i := 0; i < nt; i++ {
+		c := genCase(rt)
+		c.TCP = true
+		m.Begin(c)
+		runCase(m, c)
 	}
 }
 
